@@ -4,6 +4,7 @@ CONSTANTS
   ValueSet <- ValuesS
   AttrSet <- AttrsS
   MaxOps = 1000
+  Flags = TRUE
   FreeRaise = TRUE
 CONSTRAINT Report
 INVARIANT OnePerName
